@@ -1682,7 +1682,8 @@ func (schema *Schema) visitJSONNumber(settings *schemaValidationSettings, value 
 	if v := schema.MultipleOf; v != nil {
 		// "A numeric instance is valid only if division by this keyword's
 		//    value results in an integer."
-		if bigFloat := big.NewFloat(value / *v); !bigFloat.IsInt() {
+		// a zero divisor yields NaN or Inf, which big.NewFloat cannot represent
+		if quotient := value / *v; math.IsNaN(quotient) || math.IsInf(quotient, 0) || !big.NewFloat(quotient).IsInt() {
 			if settings.failfast {
 				return errSchema
 			}
